@@ -304,6 +304,27 @@ def check_bin(case):
         raise
     except Exception as e:
         dis.append({"clause": "Equality:Raises", "detail": "%s raised %s" % (what, type(e).__name__)})
+    # the binary operators build a new length: a later in-place operation on the result leaves both operands as they were
+    for name, fn in (("+", lambda a, b: a + b), ("-", lambda a, b: a - b)):
+        try:
+            a0, b0 = svg.Length(sa), svg.Length(sb)
+            r = fn(a0, b0)
+            if isinstance(r, svg.Length):
+                if r is a0 or r is b0:
+                    dis.append({"clause": "OperandReturned", "detail": "Length(%r) %s Length(%r) returned one of its operands" % (sa, name, sb)})
+                r *= 3
+                r += svg.Length(sb)
+                if (a0.amount, a0.units) != (svg.Length(sa).amount, svg.Length(sa).units) or (b0.amount, b0.units) != (svg.Length(sb).amount, svg.Length(sb).units):
+                    dis.append({"clause": "OperandModified", "detail": "after r = Length(%r) %s Length(%r); r *= 3; r += ...: operands are %r and %r" % (sa, name, sb, a0, b0)})
+            a1, b1 = svg.Length(sa), svg.Length(sb)
+            a1 += b1
+            a1 *= 3
+            if (b1.amount, b1.units) != (svg.Length(sb).amount, svg.Length(sb).units):
+                dis.append({"clause": "OperandModified", "detail": "after a = Length(%r); a += b; a *= 3 the operand b = Length(%r) is %r" % (sa, sb, b1)})
+        except engine.CaseTimeout:
+            raise
+        except Exception:
+            pass          # (incommensurable pairs may raise: the arithmetic clauses above decide those)
     va = abs(float((rat(sumA) + rat(difA)) / 2))
     vb = abs(float((rat(sumA) - rat(difA)) / 2))
     for d in dis:
